@@ -271,7 +271,7 @@ pub fn run(tier: &str, seed: i64) -> Outcome {
     let mut states = collected.into_inner().unwrap();
     states.sort_by_key(|p| p.key());
     let acc_show = par_items(&states, &|_, p, acc| {
-        for m in p.legal() {
+        for (mi, m) in p.legal().into_iter().enumerate() {
             let succ = p.apply(&m);
             acc.evaluations += 1;
             match uci_seq(vec![format!("position fen {} moves {}", p.fen6(false), m.uci()), "show".into()]) {
@@ -286,6 +286,28 @@ pub fn run(tier: &str, seed: i64) -> Outcome {
                     }
                 }
                 Err(e) => acc.violation(format!("show-died|{}|{}", p.fen4(false), m.uci()), e, json::obj(vec![("kind", json::s("c20-show")), ("fen", json::s(p.fen6(false))), ("move", json::s(m.uci()))])),
+            }
+            // two position commands in a row (a GUI taking a move back, or stepping through a game): the game shown is
+            // the one the LAST command describes - longer list then its prefix, prefix then the longer list
+            if let Some(m2) = succ.legal().first().filter(|_| mi % 6 == 0) {
+                let succ2 = succ.apply(m2);
+                let (f, a, b) = (p.fen6(false), m.uci(), m2.uci());
+                for (first, second, want_pos, want_rec) in [(format!("{} {}", a, b), a.clone(), succ, vec![m]), (a.clone(), format!("{} {}", a, b), succ2, vec![m, *m2])] {
+                    acc.evaluations += 1;
+                    let rj = json::obj(vec![("kind", json::s("c20-show")), ("fen", json::s(f.clone())), ("move", json::s(format!("[{}] then [{}]", first, second)))]);
+                    match uci_seq(vec![format!("position fen {} moves {}", f, first), format!("position fen {} moves {}", f, second), "show".into()]) {
+                        Ok(t) => {
+                            let Some(entry) = t.last() else { continue };
+                            acc.count("`show` after two position commands in a row");
+                            let wp = want_pos.normalised();
+                            let counters = format!("{} 0 {}", wp.fen4(false), 1 + want_rec.len() / 2);
+                            if let Err(e) = check_display(entry, keys().hash(&wp), &counters, &wp, &want_rec) {
+                                acc.violation(format!("show-twice|{}|{}|{}", p.fen4(false), first, second), format!("`position fen {} moves {}` followed by `position fen {} moves {}`, then `show`: {}", f, first, f, second, e), rj);
+                            }
+                        }
+                        Err(e) => acc.violation(format!("show-twice-died|{}|{}", p.fen4(false), first), e, rj),
+                    }
+                }
             }
             // a refused move after a played one: if a game is still shown, it is the game after `m` alone - the
             // record must not contain the refused move. Refused strings: geometrically valid moves that expose the
